@@ -710,3 +710,89 @@ pub fn c12(ctx: &Ctx) {
     ctx.sample(json!({"field": "SUBSCRIBE filter", "text": "home/\\0/temp"}));
     ctx.sample(json!({"field": "v5 PUBLISH subscription identifier", "bytes": "ff ff ff ff 01"}));
 }
+
+// ---------------------------------------------------------------------------------------------
+// Miri leg: the same harness functions on a reduced scope, sequentially, so that Miri can watch
+// every execution for undefined behaviour (uninitialised reads, invalid str, out-of-bounds).
+
+pub fn miri_leg(ctx: &Ctx) {
+    fn fam<F: Fam>(ctx: &Ctx) {
+        let sw = Sweep { ctx, nontrivial: AtomicU64::new(0), accepted: AtomicU64::new(0) };
+        // all byte strings of length <= 2 over B16 and the type nibbles
+        let mut alpha: Vec<u8> = B16.to_vec();
+        alpha.extend((1..=15u8).map(|t| t << 4));
+        alpha.extend([0x32, 0x62, 0x82, 0xA2]);
+        let mut n = 0u64;
+        c03_light::<F>(ctx, &sw, &[]);
+        for a in &alpha {
+            c03_light::<F>(ctx, &sw, &[*a]);
+            for b in &alpha {
+                c03_light::<F>(ctx, &sw, &[*a, *b]);
+                n += 1;
+            }
+        }
+        ctx.count(&format!("{}_miri_byte_strings", F::NAME), n + alpha.len() as u64 + 1);
+        // every packet type and form once: scripted reads, future kept / re-created, end of stream mid-way
+        // up to three values per packet type
+        let mut per_type: std::collections::BTreeMap<u8, usize> = Default::default();
+        let tiny: Vec<Ast> = u_tiny(F::FAMILY)
+            .into_iter()
+            .rev()
+            .filter(|a| {
+                let c = per_type.entry(a.ptype()).or_insert(0);
+                *c += 1;
+                *c <= 3
+            })
+            .collect();
+        let frames = sweeps::frames_of(F::FAMILY, &tiny);
+        ctx.count(&format!("{}_miri_frames", F::NAME), frames.len() as u64);
+        for f in &frames {
+            c03_light::<F>(ctx, &sw, f);
+            c03_heavy::<F>(ctx, f);
+            c11_input::<F>(ctx, &sw, f);
+            // a few single-byte corruptions of each frame
+            for i in 0..f.len().min(12) {
+                for v in [0x00u8, 0xFF, 0x80] {
+                    let mut g = f.clone();
+                    g[i] = v;
+                    c03_light::<F>(ctx, &sw, &g);
+                    c12_input::<F>(ctx, &sw, &g);
+                }
+            }
+        }
+        // the poll decoder's explicit state space for the shortest frames, one thread
+        let short: Vec<crate::e1::Stream> = frames.iter().filter(|f| f.len() <= 7).take(6).map(|f| crate::e1::Stream::single(f, "miri")).collect();
+        crate::checks::pollmc::run_model_threads::<F>(ctx, "C05", "miri", short, 1, 8, 3, true, 1);
+        // evil strings (<= 2 bytes over the UTF-8 alphabet) in one text field per packet type
+        use mqtt_ref::enc::{Node, Tag};
+        let alpha: [u8; 8] = [0x00, b'a', b'+', 0xC3, 0xA9, 0xED, 0xA0, 0xFF];
+        let mut texts: Vec<Vec<u8>> = vec![vec![]];
+        for a in alpha {
+            texts.push(vec![a]);
+            for b in alpha {
+                texts.push(vec![a, b]);
+            }
+        }
+        texts.push(b"aaaaaaaa\xC0ab".to_vec());
+        texts.push("$share/é/a".as_bytes().to_vec());
+        let mut m = 0u64;
+        let mut host_types = std::collections::BTreeSet::new();
+        for a in tiny.iter().filter(|a| host_types.insert(a.ptype())) {
+            if let Some(f) = enc::encode(F::FAMILY, a, Spell::default()) {
+                if let Some((path, tag)) = mutate::sites(&f.body).into_iter().find(|(_, t)| matches!(t, Tag::Str(_))) {
+                    for t in &texts {
+                        let n = Node::tag(tag, Node::Len16(Box::new(Node::raw(t))));
+                        let g = mqtt_ref::enc::Frame { control: f.control, rl_pad: 0, rl_raw: None, body: mutate::replace(&f.body, &path, n) };
+                        if let Some(b) = g.bytes() {
+                            c12_input::<F>(ctx, &sw, &b);
+                            m += 1;
+                        }
+                    }
+                }
+            }
+        }
+        ctx.count(&format!("{}_miri_text_frames", F::NAME), m);
+    }
+    fam::<V3>(ctx);
+    fam::<V5>(ctx);
+}
